@@ -46,6 +46,8 @@ def match(x, L, ctx, mode="full", leafkey=None):
     k = L[0]
     if k == "narr":  # an annotation extended by nesting == the flat annotation "outer inner"
         return match(x, ["arr", (L[1] + " " + L[2]).strip()], ctx, mode, leafkey)
+    if k == "nonelit":
+        return x is None, ctx
     if k == "fwd":  # string annotation naming a builtin type
         return match(x, [L[1]], ctx, mode, leafkey)
     if k == "any":
